@@ -32,7 +32,8 @@ type recEvent struct {
 }
 
 var interesting = []rune{'/', '\\', ':', '@', '?', '#', '.', '%', '2', 'e', 'E', '[', ']', ' ', '\t', '\n', '|', 'C', 'a', 'Z', '0', '1', '9', 'x', '-', '+', '&', '=',
-	0xe9, 0x20ac, 0x1F600, 0xFFFD, 0xFFFE, 0x7f, 0x80, 0, 0x1f, '<', '>', '"', '`', '{', '}', '^', '\'', '~', '!', '$', ';', ',', 0x2260, 0xAD, 0xFF21, 0x3002, 0x200D}
+	0xe9, 0x20ac, 0x1F600, 0xFFFD, 0xFFFE, 0x7f, 0x80, 0, 0x1f, '<', '>', '"', '`', '{', '}', '^', '\'', '~', '!', '$', ';', ',', 0x2260, 0xAD, 0xFF21, 0x3002, 0x200D,
+	0xFF05, 0xFF0F, 0xFF1A, 0xFF11, 0xFF0E, 0xFF10, 0xFF58, 0x2024, 0x212A, 0xDF, 0x131}
 
 func mutate(r *rand.Rand, s []rune, corpus [][]rune, maxlen int) []rune {
 	k := 1 + r.Intn(3)
@@ -134,6 +135,8 @@ func cmdRecord(args []string) int {
 	maxlen := fs.Int("maxlen", 90, "max input length (code points)")
 	parseOnly := fs.Int("parse-only-percent", 50, "share of histories that consist of one parse")
 	pinned := fs.String("pinned", "", "JSON array of inputs (strings) that are recorded first, one parse-only history each")
+	hostAlpha := fs.String("host-alphabet", "", "JSON array of code points: enumerate every host over it up to -host-len and record parse events for it (IDNA pipeline)")
+	hostLen := fs.Int("host-len", 3, "")
 	fs.Parse(args)
 	var pinnedInputs []string
 	if *pinned != "" {
@@ -155,9 +158,35 @@ func cmdRecord(args []string) int {
 		ws[i] = bufio.NewWriterSize(f, 1<<20)
 		defer ws[i].Flush()
 	}
+	if *hostAlpha != "" {
+		var alpha []rune
+		var cps []int32
+		if err := json.Unmarshal([]byte(*hostAlpha), &cps); err != nil {
+			fmt.Fprintln(os.Stderr, "bad --host-alphabet:", err)
+			return 2
+		}
+		for _, c := range cps {
+			alpha = append(alpha, rune(c))
+		}
+		var rec func(prefix []rune, n int)
+		rec = func(prefix []rune, n int) {
+			if len(prefix) > 0 {
+				h := string(prefix)
+				pinnedInputs = append(pinnedInputs, "http://"+h+"/", "file://"+h+"/p", "wss://u@"+h+":8/?q")
+			}
+			if n == 0 {
+				return
+			}
+			for _, c := range alpha {
+				rec(append(append([]rune{}, prefix...), c), n-1)
+			}
+		}
+		rec(nil, *hostLen)
+		*n = 0 // only the enumerated hosts
+	}
 	total, hists := 0, 0
 	const NH = 3
-	for total < *n {
+	for total < *n || len(pinnedInputs) > 0 {
 		w := ws[hists%*chunks]
 		hists++
 		m := interp.New(defaultP, NH)
